@@ -47,6 +47,39 @@ func c13GenTree(t *rapid.T, depth int, label string) map[string]interface{} {
 	return m
 }
 
+// c13Vary derives new values from earlier ones: the same paths again, with a leaf changed, nulled, turned into a table,
+// or a table turned into a scalar (what a user re-running an upgrade with an edited values file produces).
+func c13Vary(t *rapid.T, prev map[string]interface{}, label string) map[string]interface{} {
+	out, _ := deepCopyVal(prev).(map[string]interface{})
+	if out == nil {
+		out = map[string]interface{}{}
+	}
+	ks := make([]string, 0, len(out))
+	for k := range out {
+		ks = append(ks, k)
+	}
+	sort.Strings(ks)
+	for _, k := range ks {
+		switch rapid.IntRange(0, 6).Draw(t, label+k) {
+		case 0:
+			out[k] = nil
+		case 1:
+			out[k] = rapid.SampledFrom([]string{"x", "y", "z"}).Draw(t, label+k+"S")
+		case 2:
+			delete(out, k)
+		case 3:
+			if sub, ok := out[k].(map[string]interface{}); ok {
+				out[k] = c13Vary(t, sub, label+k+".")
+			} else {
+				out[k] = map[string]interface{}{"a": "nested"}
+			}
+		case 4:
+			out[k] = map[string]interface{}{}
+		}
+	}
+	return out
+}
+
 // refMerge overlays src on dst key by key: tables merge, everything else (scalars, lists, null) replaces.
 func refMerge(over, base map[string]interface{}) map[string]interface{} {
 	out := map[string]interface{}{}
@@ -324,6 +357,7 @@ func c13Prop(t *rapid.T) {
 	nops := rapid.IntRange(2, maxOps).Draw(t, "nops")
 	modes := map[string]bool{}
 	anyOverlap := false
+	var lastVals map[string]interface{}
 	for i := 0; i < nops; i++ {
 		var op *world.Op
 		if i == 0 {
@@ -332,8 +366,13 @@ func c13Prop(t *rapid.T) {
 			op = &world.Op{Kind: "rollback", DisableHooks: true, Target: rapid.IntRange(0, i).Draw(t, "target")}
 		} else {
 			op = &world.Op{Kind: "upgrade", DisableHooks: true, Chart: c13Chart(t, i+1), Values: c13GenTree(t, 2, "val")}
-			if rapid.IntRange(0, 3).Draw(t, "noNewValues") == 0 {
+			switch rapid.IntRange(0, 5).Draw(t, "newValues") {
+			case 0:
 				op.Values = map[string]interface{}{}
+			case 1, 2:
+				if lastVals != nil {
+					op.Values = c13Vary(t, lastVals, "vary")
+				}
 			}
 			switch rapid.IntRange(0, 5).Draw(t, "mode") {
 			case 1:
@@ -351,6 +390,9 @@ func c13Prop(t *rapid.T) {
 			if rapid.IntRange(0, 5).Draw(t, "failing") == 0 {
 				op.Fault = world.Fault{Kind: "wait", K: 0}
 			}
+		}
+		if len(op.Values) > 0 {
+			lastVals = op.Values
 		}
 		cut, mode, overlap := j.run(op)
 		modes[mode] = true
@@ -376,7 +418,7 @@ func c13Prop(t *rapid.T) {
 }
 
 func TestC13(t *testing.T) {
-	evid.Extra("rule", "C13: install with a generated value tree followed by chains (2..6 steps quick, 2..9 thorough) of upgrade{default | reset-values | reuse-values | reset-then-reuse-values | reset+reuse | reuse+reset-then-reuse} with a fresh value tree (possibly empty; nulls, empty tables, lists, type changes over keys a..d, depth <= 3) and a new chart version with fresh defaults, and rollback{to k}; one upgrade in six fails after its revision was recorded. Runs on the Secret backend. A reference ledger gives, per revision, the expected user values (reset: new; reuse / reset-then-reuse: deployed revision's values overlaid key by key with the new ones; default: new if any else the deployed revision's; rollback: the target's) and the defaults in force (reuse: those of the deployed revision; otherwise the new chart's). Compared by leaf paths with the stored Release.Config of every created revision, and with what the templates really saw (a probe template emitting toJson .Values). Non-trivial = a chain using at least two different flag modes in which new values define a path the carried-forward values also define; distinct by the full chain.")
+	evid.Extra("rule", "C13: install with a generated value tree followed by chains (2..6 steps quick, 2..9 thorough) of upgrade{default | reset-values | reuse-values | reset-then-reuse-values | reset+reuse | reuse+reset-then-reuse} with a fresh value tree or an edited copy of the values given last (possibly empty; nulls, empty tables, lists, type changes over keys a..d, depth <= 3) and a new chart version with fresh defaults, and rollback{to k}; one upgrade in six fails after its revision was recorded. Runs on the Secret backend. A reference ledger gives, per revision, the expected user values (reset: new; reuse / reset-then-reuse: deployed revision's values overlaid key by key with the new ones; default: new if any else the deployed revision's; rollback: the target's) and the defaults in force (reuse: those of the deployed revision; otherwise the new chart's). Compared by leaf paths with the stored Release.Config of every created revision, and with what the templates really saw (a probe template emitting toJson .Values). Non-trivial = a chain using at least two different flag modes in which new values define a path the carried-forward values also define; distinct by the full chain.")
 	evid.Extra("assumptions", []string{"single-level charts (stored charts do not keep subcharts)", "values are JSON-native (the record format is JSON)", "null, absent and empty table are compared as equal (a template cannot tell them apart)"})
 	rapid.Check(t, c13Prop)
 }
